@@ -1322,3 +1322,8 @@ Section TssTheorems.
   Lemma tss_removed_l : forall k, In k (tss_removed t b) -> ~ V' k /\ V k.
   Proof. destruct tss_facts as [_ [R _]]. intros k HR. apply R in HR. tauto. Qed.
 End TssTheorems.
+
+Lemma abs_growth_invariant_l : forall c s, TInv s ->
+  TInv (tss_reserve c s) /\
+  forall i, st (tss_reserve c s) i = st s i /\ ab (tss_reserve c s) i = ab s i /\ rb (tss_reserve c s) i = rb s i.
+Proof. intros c s T. destruct (reserve_view c s T) as [A [_ [_ B]]]. exact (conj A B). Qed.
